@@ -238,7 +238,14 @@ def special_programs():
     nums4 = copy.deepcopy(nums)
     nums4['symbols'][-2]['name'] = '6'
     nums4['symbols'][-1]['name'] = '4'
-    return [ring, nums, nums2, nums3, nums4]
+    # switches operated after they were drawn: the intended state is the one they were left in
+    sw = []
+    for st, ops in (('OPEN', ['toggle']), ('CLOSED', ['toggle']), ('OPEN', ['close']), ('CLOSED', ['open', 'close']), ('OPEN', ['toggle', 'toggle']),
+                    ('CLOSED', ['toggle', 'close'])):
+        sw.append({'unit': 3, 'symbols': [V('V1', (0, 0), (0, 1)),
+                                          {'cls': 'Switch', 'name': 'S1', 'p': [0, 1], 'q': [1, 1], 'reverse': False, 'kw': {'state': st}, 'after': ops},
+                                          R('R1', (1, 1), (1, 0)), L((1, 0), (0, 0)), N('0', (0, 0), 'Ground')]})
+    return [ring, nums, nums2, nums3, nums4] + sw
 
 
 def run(ctx):
